@@ -12,8 +12,22 @@ DOC_FT = {"getcaps": 3, "getstate": 3, "getenergy": 3, "gethumidity": 3, "setsta
           "toggledisplay": 3, "getprops": 3, "setprops": 2}
 DOC_FIRST = {"getcaps": 0xB5, "getstate": 0x41, "getenergy": 0x41, "gethumidity": 0x41, "setstate": 0x40,
              "toggledisplay": 0x41, "getprops": 0xB1, "setprops": 0xB0}
-SUPPORTED = [p for p in C.PropertyId if p._supported]
-UNSUPPORTED = [p for p in C.PropertyId if not p._supported]
+def _is_supported(p):
+    """whether a property id can be written: `PropertyId._supported` if it is still there, else probed through encode()"""
+    try:
+        return bool(p._supported)
+    except AttributeError:
+        try:
+            p.encode(0)
+            return True
+        except NotImplementedError:
+            return False
+        except Exception:  # noqa
+            return True
+
+
+SUPPORTED = [p for p in C.PropertyId if _is_supported(p)]
+UNSUPPORTED = [p for p in C.PropertyId if not _is_supported(p)]
 
 
 def gen_command(rng, wild=True):
